@@ -9,6 +9,7 @@ import (
 	"strings"
 
 	commonpb "go.temporal.io/api/common/v1"
+	enumspb "go.temporal.io/api/enums/v1"
 	historypb "go.temporal.io/api/history/v1"
 	"google.golang.org/protobuf/proto"
 	"google.golang.org/protobuf/reflect/protoreflect"
@@ -54,7 +55,7 @@ func canonicalBlobs(m proto.Message) proto.Message {
 			for _, e := range evs {
 				fix(e.ProtoReflect())
 			}
-			blob.Data = gen.EncodeEventsDeterministic(evs)
+			blob.Data, blob.EncodingType = gen.EncodeEventsDeterministic(evs), enumspb.ENCODING_TYPE_PROTO3
 		}
 	}
 	fix = func(pm protoreflect.Message) {
